@@ -204,6 +204,18 @@ CLAIMED = {
          "paint graphs (C13), IFT client (C18/C19). Outcome-class agreement with the models is reported, not required.",
     technique="TLA+ models of interpreter control flow and composite loading; TLC-enumerated programs/graphs replayed on skrifa; trace validation of outcomes; API drive with hostile arguments",
     design="4/C02"),
+ "C20": dict(
+    category="exploration",
+    text="No specification of its own (the property is about the build configuration): the harness workspace is rebuilt with "
+         "overflow checks and debug assertions and the model-derived input sets are replayed - HintVM.tla programs including "
+         "extreme-operand families for every arithmetic, rounding, point, CVT and state instruction, Composite.tla graphs, the "
+         "boundary mutations ReadTrace.tla derives for every corpus table, the hostile-argument API drive (incl. the "
+         "auto-hinter), writer round trips and corpus subsetting. Overflow / assertion panics are violations of this property; "
+         "other findings are left to the property that owns them.",
+    note="Exploration: an overflow site no replayed input reaches is not reported. 12 sites found this way were repaired "
+         "(known_findings.json F16-F23, F26, F27).",
+    technique="strict-profile (overflow-checks + debug-assertions) replay of TLC-enumerated programs/graphs/mutations and corpus drives",
+    design="4/C20"),
 }
 
 NOT_APPLICABLE = {
